@@ -680,7 +680,7 @@ def fixed(acc):
 
 
 def plan(tier, seed):
-    shards, n, ml = (8, 400, 30) if tier == "quick" else (16, 12000, 60)
+    shards, n, ml = (10, 800, 30) if tier == "quick" else (16, 12000, 60)
     jobs = [("fixed", {})]
     jobs += [("hyp_shard", {"n": n, "seed": derive_seed(seed, PROPERTY, i), "maxlen": ml}) for i in range(shards)]
     return jobs
